@@ -80,7 +80,20 @@ inductive Out (α : Type) where
   | panic
   deriving Repr, DecidableEq
 
-/-- `Path::contains`: first hit wins; a diagonal segment reached before any hit panics. -/
+/-- the general (non-Manhattan) segment test: projection of p on a→b falls between the end
+    points and the squared distance from the line is at most (w/2)² — all in exact integers -/
+def diagHit (w : Nat) (a b p : Pt) : Bool :=
+  let dx := b.x - a.x
+  let dy := b.y - a.y
+  let vx := p.x - a.x
+  let vy := p.y - a.y
+  let len2 := dx * dx + dy * dy
+  let along := vx * dx + vy * dy
+  let cr := vx * dy - vy * dx
+  decide (0 ≤ along) && decide (along ≤ len2) && decide (4 * cr * cr ≤ (w : Int) * (w : Int) * len2)
+
+/-- `Path::contains`: one rectangle per Manhattan segment (±⌊w/2⌋ laterally, flush ends), the
+    exact distance test for a diagonal segment; first hit wins; an empty path contains nothing. -/
 def pathSegs (w : Nat) (p : Pt) : List Pt → Out Bool
   | [] => .ok false
   | [_] => .ok false
@@ -90,11 +103,9 @@ def pathSegs (w : Nat) (p : Pt) : List Pt → Out Bool
       if rectContains ⟨a.x - h, a.y⟩ ⟨a.x + h, b.y⟩ p then .ok true else pathSegs w p (b :: rest)
     else if a.y = b.y then
       if rectContains ⟨a.x, a.y - h⟩ ⟨b.x, a.y + h⟩ p then .ok true else pathSegs w p (b :: rest)
-    else .panic
+    else
+      if diagHit w a b p then .ok true else pathSegs w p (b :: rest)
 
-def pathContains (pts : List Pt) (w : Nat) (p : Pt) : Out Bool :=
-  match pts with
-  | [] => .panic            -- `points.len() - 1` underflows
-  | _ => pathSegs w p pts
+def pathContains (pts : List Pt) (w : Nat) (p : Pt) : Out Bool := pathSegs w p pts
 
 end L21.Geom
